@@ -224,6 +224,8 @@ def run(prog, ctx):
     # the centre of a hat exactly once
     from ..hats import check_hat_centre
     ctx.floor("C17.D4", check_hat_centre(prog, ctx, "C17.D4"), 3, "hat implementations analysed for the centre rule")
+    from ..hats import check_support_enumeration
+    ctx.floor("C17.D4.support", check_support_enumeration(prog, ctx, "C17.D4"), 1, "floor/ceil enumerations of the hats around a sample")
 
     # ------------------------------------------------------------------ D5 per-dimension caches are distinct objects
     def _mutable(e):
